@@ -484,6 +484,17 @@ WsdlCases ==
                              output |-> [msg |-> "response", parts |-> "parameters", headers |-> <<>>]] >>,
                          << Msg("request", << Part("parameters", "ty", "GetItem") >>), Msg("response", << Part("parameters", "ty", "GetItemResponse") >>) >>))
                     @@ [stns |-> "Uthird"] >>,
+   \* two inline schemas with their own target namespaces; the first refers to a type of the second
+   two_inline |-> << Wsdl(<< [k |-> "import", ns |-> "Uthird"],
+                             ElemI("GetItem", << El("itemId", B("string"), 1, "1"), El("subjectMember", T("ty", "OtherType"), 0, "1") >>) >>,
+                          << <<"ty", "Uthird">>, <<"sv", "Uv1">> >>,
+                  Common(<< [n |-> "GetItem", action |-> "act", input |-> [msg |-> "request", parts |-> "parameters", headers |-> <<>>],
+                             output |-> [msg |-> "response", parts |-> "parameters", headers |-> <<>>]] >>,
+                         << Msg("request", << Part("parameters", "sv", "GetItem") >>), Msg("response", << Part("parameters", "ty", "GetItemResponse") >>) >>))
+                    @@ [stns |-> "Uv1"],
+                   [name |-> "svc.wsdl#2", kind |-> "inline", parent |-> "svc.wsdl", tns |-> "Uthird", xmlns |-> <<>>,
+                    items |-> << ElemI("GetItemResponse", << El("itemName", B("string"), 1, "1") >>),
+                                 Cx("OtherType", None, << El("otherValue", B("string"), 1, "1") >>, <<>>) >>] >>,
    \* body and header elements of one message in different namespaces, and the response in a namespace the request never uses
    mixed_ns |-> << Wsdl(<< Imp("Ufar", "far.xsd"), ElemI("GetItem", << El("itemId", B("string"), 1, "1") >>),
                            ElemI("AuthHeader", << El("token", B("string"), 1, "1") >>) >>, << <<"o", "Ufar">> >>,
